@@ -11,6 +11,9 @@ def register(prop, J):
          jobs=[
              J("batch-v2", "v2", "resprops", "^TestC16", checks=(6000, 3000000), shards=(4, 16), prepare="prepare_resources",
                extra_pkgs=["dyn", "gendrv"], timeout=(1200, 3000)),
+             # (appended after the v2 job: the position of a job determines its derived seeds)
+             J("batch-v1", "v1", "resprops", "^TestC16", checks=(4000, 1500000), shards=(4, 16), prepare="prepare_resources",
+               extra_pkgs=["dyn", "gendrv"], timeout=(1200, 3000)),
          ],
          level_text="generated key multisets and server replies through generated bindings: duplicates rejected with zero requests on "
                     "the wire, ids parameter reference-parsed (each id once), every response entry filed under the caller's own key "
